@@ -18,11 +18,11 @@
 
    `lhist` logs completed calls, newest first; `sc` = ln.done was already closed when the call started.
    No proofs in this file. *)
-From FH Require Import Model.Base.
+From FH Require Import Model.Base Gen.GenC33.
 Open Scope N_scope.
 
-(* make(chan acceptConn, 1024) in NewInmemoryListener: literal in a call, see Pipe.chan_cap *)
-Definition conns_cap : N := 1024.
+(* make(chan acceptConn, 1024) in NewInmemoryListener: regenerated from the source (Gen.GenC33.nln_ints) *)
+Definition conns_cap : N := Z.to_N (nth 0 nln_ints 0%Z).
 
 Inductive dpc :=
 | DFresh
